@@ -204,6 +204,68 @@ theorem neighborhood_complete {fl : α → Int} (hf : IsFloor fl) (feats : List 
     exact ⟨⟨by omega, by omega, hi0, hi1'⟩, by omega, by omega, hj0, hj1'⟩
   · exact ⟨cl, hcl, hkcl⟩
 
+/-- Formal side of finding `vertex-on-upper-border` (D10): if the constructor returns (margin ≥ 0, positive or
+default cell size) then no point of any feature segment lies on the upper border `x = xmax` or `y = ymax` of the
+extent. With `margin = 0` the extent is the bounding box, so a right-most or top-most vertex that belongs to a
+track of at least two points makes the constructor raise (the model's `grid[csize]` IndexError). -/
+theorem vertex_on_upper_border_raises {fl : α → Int} (hf : IsFloor fl) (feats : List (List (α × α))) (res : Option (α × α))
+    (margin : α) (ix : Index α) (hm : 0 ≤ margin) (hres : ∀ r, res = some r → 0 < r.1 ∧ 0 < r.2)
+    (hb : build fl feats res margin = .ok ix)
+    (k : Nat) (t : List (α × α)) (hk : feats[k]? = some t) (A B : α × α) (hAB : (A, B) ∈ Consec t)
+    (s : α) (hs0 : 0 ≤ s) (hs1 : s ≤ 1) :
+    (lerp A B s).1 < ix.xmax ∧ (lerp A B s).2 < ix.ymax := by
+  obtain ⟨hw, _, _, hpos⟩ := build_spec feats res margin ix hm hb
+  obtain ⟨_, _, hdX, hdY⟩ := hpos hf hres
+  obtain ⟨ex, ey⟩ := build_extent feats res margin ix hm hb
+  obtain ⟨cP, hP, cl, hcl, _⟩ := build_registers hf feats res margin ix hm hb k t hk A B hAB s hs0 hs1
+  obtain ⟨a1, a2, rfl⟩ := (getCell_some_iff ix _ cP).mp hP
+  dsimp only at hcl
+  have hi0 : 0 ≤ fl (((lerp A B s).1 - ix.xmin) / ix.dX) := by
+    have := hf.mono (div_nonneg (sub_nonneg.mpr a1.1) (le_of_lt hdX))
+    rwa [hf.zero] at this
+  have hj0 : 0 ≤ fl (((lerp A B s).2 - ix.ymin) / ix.dY) := by
+    have := hf.mono (div_nonneg (sub_nonneg.mpr a2.1) (le_of_lt hdY))
+    rwa [hf.zero] at this
+  obtain ⟨hi1, hj1⟩ := lt_of_cellGet_ok ix.grid _ _ hw.2 _ _ cl hcl hi0 hj0
+  constructor
+  · by_contra hc
+    have he : (lerp A B s).1 = ix.xmax := le_antisymm a1.2 (not_lt.mp hc)
+    have : ((lerp A B s).1 - ix.xmin) / ix.dX = ((ix.csize : Int) : α) := by
+      rw [he, ← ex, mul_comm, mul_div_assoc, div_self (ne_of_gt hdX), mul_one]
+    rw [this, hf.eq_of (le_refl _) (by linarith)] at hi1
+    omega
+  · by_contra hc
+    have he : (lerp A B s).2 = ix.ymax := le_antisymm a2.2 (not_lt.mp hc)
+    have : ((lerp A B s).2 - ix.ymin) / ix.dY = ((ix.lsize : Int) : α) := by
+      rw [he, ← ey, mul_comm, mul_div_assoc, div_self (ne_of_gt hdY), mul_one]
+    rw [this, hf.eq_of (le_refl _) (by linarith)] at hj1
+    omega
+
+/-- Formal side of finding `query-on-upper-border`: on a built index, `request(q)` for a point `q` of the extent
+with `x = xmax` or `y = ymax` raises IndexError (`__getCell` accepts the point and returns index `csize` / `lsize`). -/
+theorem point_query_on_upper_border_raises {fl : α → Int} (hf : IsFloor fl) (feats : List (List (α × α)))
+    (res : Option (α × α)) (margin : α) (ix : Index α) (hm : 0 ≤ margin) (hres : ∀ r, res = some r → 0 < r.1 ∧ 0 < r.2)
+    (hb : build fl feats res margin = .ok ix) (q : α × α) (hq : getCell ix q ≠ none)
+    (hborder : q.1 = ix.xmax ∨ q.2 = ix.ymax) : requestPoint fl ix q = .error .index := by
+  obtain ⟨hw, _, _, hpos⟩ := build_spec feats res margin ix hm hb
+  obtain ⟨hcs, hls, hdX, hdY⟩ := hpos hf hres
+  obtain ⟨ex, ey⟩ := build_extent feats res margin ix hm hb
+  obtain ⟨cq, hcq⟩ := Option.ne_none_iff_exists'.mp hq
+  obtain ⟨_, _, rfl⟩ := (getCell_some_iff ix q cq).mp hcq
+  unfold requestPoint requestCell
+  simp only [hcq]
+  rcases hborder with he | he
+  · have : (q.1 - ix.xmin) / ix.dX = ((ix.csize : Int) : α) := by
+      rw [he, ← ex, mul_comm, mul_div_assoc, div_self (ne_of_gt hdX), mul_one]
+    rw [this, hf.eq_of (le_refl _) (by linarith)]
+    apply cellGet_err_col
+    rw [hw.2.1]; omega
+  · have : (q.2 - ix.ymin) / ix.dY = ((ix.lsize : Int) : α) := by
+      rw [he, ← ey, mul_comm, mul_div_assoc, div_self (ne_of_gt hdY), mul_one]
+    rw [this, hf.eq_of (le_refl _) (by linarith)]
+    apply cellGet_err_row _ _ _ hw.2
+    omega
+
 /-! ### non-vacuity -/
 
 /-- `Rat.floor` (the driver's `math.floor`) satisfies the floor contract -/
